@@ -958,7 +958,7 @@ macro_rules! c10_direct {
         }
     };
 }
-//@ h=c10_direct_short props=C10 cfgs=K1 tier=t t=3600 | funcs: inner::Generator<Short>::finalize_with_options called twice on the same state | bound: all states x all pairs of option settings o <= o' (same Q-ratio mode): Ok(h) under o => Ok(h) under o' (real code on both sides) | stubs: select_nth_unstable -> any q1<=q2<=q3 with q3 zero or a power of two (same for both calls); FuzzyHashLengthEncoding::new contract
+//@ h=c10_direct_short props=C10 cfgs=K1 tier=q t=1200 | funcs: inner::Generator<Short>::finalize_with_options called twice on the same state | bound: all states x all pairs of option settings o <= o' (same Q-ratio mode): Ok(h) under o => Ok(h) under o' (real code on both sides) | stubs: select_nth_unstable -> any q1<=q2<=q3 with q3 zero or a power of two (same for both calls); FuzzyHashLengthEncoding::new contract
 c10_direct!(c10_direct_short, GShort, sym_short, 48, 52);
 
 // Boundary instances with CONCRETE len = (2^32-4) - room (cheap: no symbolic memcpy sizes).
